@@ -7,7 +7,8 @@ from vlib.runner import Result, SubCheck, Violation
 
 PROPERTY = "C11"
 LEVEL = "exploration"
-RULE = ("LSHNearest configs (n_dimensions 1..6 mostly, n_tables 1..4, seeds, d 1..5, n_jobs 1..3 for hashing), history fit "
+RULE = ("One case in ten uses wide sparse contexts (the features sit in a few of 101 / 128 / 300 columns) with queries that are non-zero in columns that are zero in the whole history. "
+        "LSHNearest configs (n_dimensions 1..6 mostly, n_tables 1..4, seeds, d 1..5, n_jobs 1..3 for hashing), history fit "
         "+ 0..3 partial_fit with drawn early queries in between, deterministic learning policies and (through the per-row "
         "seed) randomised ones; n_dimensions also drawn from {8, 16, 31..33, 40, 52..54, 64}. Queries: stored rows "
         "(from fit and from partial_fit), 2^k * stored row, c * stored row (c > 0), the zero row, random rows. "
